@@ -13,7 +13,7 @@
     records, B's subscriptions and connection records, clock and timer).  Nameplate
     row ids (global AUTOINCREMENT, never visible to clients) are abstracted. *)
 From MW Require Import Base Store Monad Usage Server Websocket Service Findings Inv Obs
-     ProtoFacts StepFacts IsoFacts NonInterference Inst_Params.
+     ProtoFacts StepFacts IsoFacts NonInterference NonInterferenceR Inst_Params.
 Local Open Scope list_scope.
 
 (** what B observes and what is stored for B is the same whether or not clients of other apps are active *)
@@ -21,6 +21,39 @@ Theorem C06_noninterference : ltac:(let t := type of noninterference in exact t)
 Proof. exact noninterference. Qed.
 Check C06_noninterference.
 Print Assumptions C06_noninterference.
+
+(** ** histories with RESTARTS (the property's quantifier: "commands of two or more apps
+    with sweeps and restarts"), and with crashes inside B's own commands (NonInterferenceR.v)
+
+    [no_failure_run_r] allows [ERestart] next to the plain events ([noninterference] above is
+    the special case without restarts); a restart is never dropped by [filterB], its start-up
+    sweep has the same effect on B's rows in both runs, and afterwards both runs have no
+    connections and no subscriptions.  [no_failure_run_rc] additionally allows [ECrash k] of a
+    command that [filterB] keeps (both runs die after the same commit of the same handler). *)
+Theorem C06_noninterference_restarts : ltac:(let t := type of noninterference_r in exact t).
+Proof. exact noninterference_r. Qed.
+Check C06_noninterference_restarts.
+Print Assumptions C06_noninterference_restarts.
+
+Theorem C06_noninterference_restarts_crashes : ltac:(let t := type of noninterference_rc in exact t).
+Proof. exact noninterference_rc. Qed.
+Check C06_noninterference_restarts_crashes.
+Print Assumptions C06_noninterference_restarts_crashes.
+
+(** one step: a restart has the same effect on B's world in both runs *)
+Theorem C06_kept_restart : ltac:(let t := type of kept_restart in exact t).
+Proof. exact kept_restart. Qed.
+Check C06_kept_restart.
+Print Assumptions C06_kept_restart.
+
+(** in the run without the other apps no handler fails either *)
+Theorem C06_filtered_run_no_failure : ltac:(let t := type of noninterference_r_no_failure in exact t).
+Proof. exact noninterference_r_no_failure. Qed.
+Print Assumptions C06_filtered_run_no_failure.
+
+Example C06_restart_nonvacuous : ltac:(let t := type of noninterference_r_nonvacuous in exact t).
+Proof. exact noninterference_r_nonvacuous. Qed.
+
 
 (** one step: an event of another app changes nothing of B's world and sends nothing to B's side *)
 Theorem C06_dropped_event_invisible : ltac:(let t := type of dropped_event_invisible in exact t).
